@@ -678,6 +678,46 @@ fn f11() -> Vec<Case> {
     out
 }
 
+
+/// F12: a function written inside the initialiser of a local (or inside the iterable of a for loop) that
+/// mentions that local's name.  The name means that local - nothing further out: not an enclosing local of
+/// the same name, not the module global - and, as a local cannot be read in its own initialiser, the program
+/// is rejected with that compile error, whatever else of that name exists.  (Expect-based: M-eval has no
+/// compile errors.)
+fn f12() -> Vec<crate::expect::Expect> {
+    use crate::expect::Expect;
+    let mut out = Vec::new();
+    let inner: [&str; 5] = [
+        "{ var x = || x; print(type(x())); }",
+        "{ var x = || { return x; }; print(type(x())); }",
+        "{ var x = [1, || || x]; print(type(x[1]()())); }",
+        "{ for x in [|| x] { print(type(x())); } }",
+        "{ var x = (|| x)(); print(x); }",
+    ];
+    for body in inner {
+        for (gl, outer) in [(false, false), (true, false), (false, true), (true, true)] {
+            let mut src = String::new();
+            if gl {
+                src.push_str("var x = \"the module global x\";\n");
+            }
+            src.push_str("fn scope() {\n");
+            if outer {
+                src.push_str("  var x = \"an enclosing local x\";\n");
+            }
+            src.push_str(&format!("  {}\n}}\nscope();\nprint(\"done\");\n", body));
+            out.push(Expect {
+                family: "F12_a_function_in_a_locals_own_initialiser",
+                request: proto::Request { op: "run".into(), snippets: vec![src], fuel: Some(1_000_000), ..Default::default() },
+                out: vec![vec![]],
+                end: vec!["[module \"main\", line".to_string()],
+                describe: json!({"shape": body, "module_global_of_that_name": gl, "enclosing_local_of_that_name": outer}),
+                nontrivial: true,
+            });
+        }
+    }
+    out
+}
+
 /// the three metamorphic wrappings: the same statements as a block, a function called once, a fiber
 /// called once (top-level declarations become locals / captured variables on another fiber's stack)
 fn wrappings(c: &Case) -> Vec<Case> {
@@ -748,10 +788,23 @@ pub fn run(ctx: &Ctx) -> Report {
     mcheck::fill_report(
         &mut report,
         &stats,
-        "F1: every combination of scope kind (block, function, lambda, method, while body, for body, try body) x exit (fall through, return, break, continue, throw) x two closures with every read/write action over two variables, created through 0-2 intermediate function levels, called inside the scope, escaped, and called in several orders after the scope has exited; F2: fresh variables per iteration/activation; F3: shadowing at depth 1-3 with a closure and a write at every level; F4: textual resolution and late-bound globals; F5: 1-3 closures over 1-3 shared variables, slot reuse; F6: captures of a try body left by exception or return; F7: capture order - three variables, up to three closures each with every ordered capture list (15 lists), so captures happen in every order relative to declaration order and to earlier captures; F10: closures made in finally / catch blocks over the loop body's locals when the iteration is left by continue / break from inside the try statement (every iteration has variables of its own); F9: locals captured before a try statement stay shared with their closures after an exception was raised inside it and handled in the same frame; F11: a function's own name inside its body means the variable the fn statement declared (global, block local, function local): rebound after a copy was stored, assigned by the function itself, recursion through a renamed copy, a closure over the name, a nested function of the same name; F8: closures made straight after control came back from another module (exception caught, call returned, fiber finished, exception through a finally block). Each program also runs wrapped in a block, a function and a fiber, and in a fiber that is suspended after every statement of every block and function and resumed until it has finished. non-trivial = at least three observations printed.",
+        "F1: every combination of scope kind (block, function, lambda, method, while body, for body, try body) x exit (fall through, return, break, continue, throw) x two closures with every read/write action over two variables, created through 0-2 intermediate function levels, called inside the scope, escaped, and called in several orders after the scope has exited; F2: fresh variables per iteration/activation; F3: shadowing at depth 1-3 with a closure and a write at every level; F4: textual resolution and late-bound globals; F5: 1-3 closures over 1-3 shared variables, slot reuse; F6: captures of a try body left by exception or return; F7: capture order - three variables, up to three closures each with every ordered capture list (15 lists), so captures happen in every order relative to declaration order and to earlier captures; F10: closures made in finally / catch blocks over the loop body's locals when the iteration is left by continue / break from inside the try statement (every iteration has variables of its own); F9: locals captured before a try statement stay shared with their closures after an exception was raised inside it and handled in the same frame; F11: a function's own name inside its body means the variable the fn statement declared (global, block local, function local): rebound after a copy was stored, assigned by the function itself, recursion through a renamed copy, a closure over the name, a nested function of the same name; F12: a function written inside a local's own initialiser (or a for loop's iterable) that mentions the local means that local and nothing further out, so the program is rejected like a direct read (five shapes, with and without a module global and an enclosing local of the same name); F8: closures made straight after control came back from another module (exception caught, call returned, fiber finished, exception through a finally block). Each program also runs wrapped in a block, a function and a fiber, and in a fiber that is suspended after every statement of every block and function and resumed until it has finished. non-trivial = at least three observations printed.",
         json!({"closures": 2, "variables": 2, "intermediate_levels": if thorough { 3 } else { 2 }, "wrappings": 3}),
     );
     report.assumptions = vec!["M-eval's cell-based environments define the intended semantics (DESIGN.md Appendix A)".into()];
     report.violations = stats.violations;
+    {
+        let cases = f12();
+        let n = cases.len();
+        let st = crate::expect::run_expect(ctx, &ctx.runner_checked, cases.into_iter(), &|_e, r| {
+            // the one message that is right: the local cannot be read in its own initialiser
+            match r.results.get(0).map(|x| &x.outcome) {
+                Some(proto::Outcome::Err { kind, messages }) if kind == "CompileError" && messages.iter().any(|m| m.contains("Cannot read local variable in its own initialiser.")) => None,
+                other => Some(format!("expected the compile error `Cannot read local variable in its own initialiser.`, got {:?}", other)),
+            }
+        }, &|_e, _p| None);
+        report.cov("F12_programs", json!(n));
+        report.violations.extend(st.violations);
+    }
     report
 }
